@@ -101,4 +101,45 @@ func init() {
 		Runs:        map[string]int{"quick": 60000, "thorough": 4000000},
 		WantFaults:  []string{"read-eio", "write-eio", "write-full", "read-short", "segment-reordered"},
 	})
+	sim.Register(&sim.Prop{
+		ID:    "C12b",
+		Level: "exploration",
+		Tool:  "addsidx",
+		Rule: "sub-world of C12: the emitted stream of the C12 world (packager production assembled with one delimiter mode: styp, top-level sidx, hierarchical sidx, per-segment sidx, none, none + -startSegOnMoof; foreign top-level boxes between fragments) is stored in a real scratch file and pushed through examples/add-sidx's own run() with seeded -nzEPT / -removeEnc flags; " +
+			"the tool must succeed, its output must keep ftyp+moov+emsg+moof+mdat bytes in order and satisfy the C12 index oracle (references located in the output bytes by the independent walker: contiguous, on each segment's first byte, ending at the end of the media, durations from the independent demuxer).",
+		Assumptions: []string{"the tool never sets the ISM flag: no mfra mode", "input and output are real scratch files (os.Open/os.Create have no seam): un-faulted"},
+		Real:        []string{"examples/add-sidx: run, removeEncryptionBoxes; mp4ff packages"},
+		Stub:        []string{"producer history and stream assembly (packager node, raw delimiter boxes)"},
+		RealNoFault: append([]string{"scratch files via os.Open / os.Create"}, realNoFault...),
+		Runs:        map[string]int{"quick": 40000, "thorough": 4000000},
+		WantProbes:  []string{"add-sidx-checked", "sidx-tiling-checked"},
+	})
+	sim.Register(&sim.Prop{
+		ID:    "C08b",
+		Level: "exploration",
+		Tool:  "segmenter",
+		Rule: "sub-world of C08 (anchor examples/segmenter/segment.go): the C11 segmenter world with lazy decode forced and no storage faults (seeded delivery schedules only): corpus or raw-muxer progressive input, seeded segment duration, single-track / multiplexed / lazy-write mode with the SimDisk handle as lazy source; " +
+			"the written files must satisfy the per-track conservation oracle of the independent demuxer AND be byte-identical to the files the same functions write from the fully decoded file (lazy-write is compared with single-track mode).",
+		Assumptions: []string{"output files go to a real scratch directory (no seam): un-faulted"},
+		Real:        []string{"examples/segmenter: copyMediaData, GetFullSamplesForInterval, make*Segments; mp4.File.CopySampleData, MdatBox.CopyData/ReadData; mp4ff packages"},
+		Stub:        []string{"input file (SimDisk handle: delivery schedules)", "virtual device time"},
+		RealNoFault: append([]string{"output files (real scratch directory)"}, realNoFault...),
+		Runs:        map[string]int{"quick": 15000, "thorough": 600000},
+		WantFaults:  []string{"read-short", "read-zero"},
+		WantProbes:  []string{"segmenter-lazy-vs-memory-compared"},
+	})
+	sim.Register(&sim.Prop{
+		ID:    "C08c",
+		Level: "exploration",
+		Tool:  "crop",
+		Rule: "sub-world of C08 (anchor cmd/mp4ff-crop/main.go): the C10 crop world without storage faults (seeded delivery schedules only; corpus files, layout variants incl. 64-bit mdat headers, raw-muxer files): cropMP4 on the lazily decoded file with the SimDisk handle as source; " +
+			"the output must satisfy the C10 prefix oracle of the independent demuxer AND be byte-identical to the output of cropMP4 on the fully decoded file.",
+		Assumptions: []string{"crop error/panic => no claim"},
+		Real:        []string{"cmd/mp4ff-crop: cropMP4, writeMdat, updateChunkOffsets; mp4.MdatBox.CopyData; mp4ff packages"},
+		Stub:        []string{"input file (SimDisk handle: delivery schedules)", "output sink", "virtual device time"},
+		RealNoFault: realNoFault,
+		Runs:        map[string]int{"quick": 100000, "thorough": 8000000},
+		WantFaults:  []string{"read-short", "read-zero"},
+		WantProbes:  []string{"crop-lazy-vs-memory-compared"},
+	})
 }
